@@ -144,7 +144,8 @@ def _dqn_common(name, sc, mod, train, extra_kwargs, uses_target, per=False, has_
     # DQN has no such parameter (it trains once more than one batch is stored - not judged)
     cfg = base_cfg(name, sc, warmlearn=sc["warm"] if has_warm else -1, warmact=sc["warm"] if has_warm else -1, explore_only_in_warmup=False,
                    policy_probe=True, ret_applicable=True, trained=["q"], targets=["q_target"] if uses_target else [], eplimit=sc.get("eplimit", 0) if has_limit else 0,
-                   epsilon4=-1 if eps is None else int(eps * 4), rules=_rules, pairs=[["q_target", "q"]] if uses_target else [])
+                   epsilon4=-1 if eps is None else int(eps * 4), rules=_rules, pairs=[["q_target", "q"]] if uses_target else [],
+                   hard_pairs=[["q_target", "q"]] if uses_target else [])
     ret = None if res is None else getattr(res, "global_step", None)
     return finish(rec, name, sc, cfg, returned=ret, final=final_digests(q=q_net, q_target=tgt), error=err)
 
